@@ -354,7 +354,9 @@ static void walkIterators(Line & l, It b, It e, long n) {
     for (auto it = b; it != e; ) { auto old = it++; post.push_back(*old); }
     for (long k = 0; k < n; ++k) { plus.push_back(*(b + k)); sub.push_back(b[k]); auto it = b; it += k; pluseq.push_back(*it); }
     for (auto it = e; it != b; ) { --it; rev.push_back(*it); }
-    for (auto it = e; it != b; ) { it--; revpost.push_back(*it); }
+    std::vector<size_t> oldpos, newpos;   // what post-decrement / pre-decrement RETURN (as distances from begin)
+    for (auto it = e; it != b; ) { auto old = it--; oldpos.push_back((size_t)(old - b)); revpost.push_back(*it); }
+    for (auto it = e; it != b; ) { auto nw = --it; newpos.push_back((size_t)(nw - b)); }
     for (long k = 1; k <= n; ++k) {
         auto m = e - k; const long d = (long)(e - m);
         dist.push_back((size_t)(d < 0 ? 777777 : d));
@@ -362,13 +364,19 @@ static void walkIterators(Line & l, It b, It e, long n) {
         auto it = e; it -= k; minuseq.push_back(*it);
     }
     size_t cmpWrong = 0;
+    // values RETURNED by ++it, it += k, it -= k (the walks above only use their side effect)
+    { long k = 0; for (auto it = b; it != e; ) { auto nw = ++it; ++k; cmpWrong += ((long)(nw - b) != k); } }
+    for (long k = 0; k <= n; ++k) {
+        auto it = b; auto r1 = (it += k); cmpWrong += ((long)(r1 - b) != k);
+        auto jt = e; auto r2 = (jt -= k); cmpWrong += ((long)(e - r2) != k);
+    }
     for (long i = 0; i <= n; ++i) for (long j = 0; j <= n; ++j) {
         auto x = b + i, y = b + j;
         cmpWrong += ((x < y) != (i < j)) + ((x > y) != (i > j)) + ((x <= y) != (i <= j)) + ((x >= y) != (i >= j)) + ((x == y) != (i == j)) + ((x != y) != (i != j));
         cmpWrong += ((long)(y - x) != j - i);
     }
     l.nats(fwd); l.nats(post); l.nats(arrow); l.nats(plus); l.nats(sub); l.nats(pluseq); l.nats(rev); l.nats(revpost);
-    l.nats(minus); l.nats(minuseq); l.nats(dist); l << (size_t)(e - b) << cmpWrong;
+    l.nats(minus); l.nats(minuseq); l.nats(dist); l << (size_t)(e - b) << cmpWrong; l.nats(oldpos); l.nats(newpos);
 }
 
 template <class R, class C>
